@@ -226,6 +226,8 @@ func exec(op string) vlib.Res {
 		return execDirty()
 	case "pool inspect":
 		return execInspect()
+	case "pool reuse":
+		return execReuse(vlib.AtoU64(f[2]), f[3], vlib.AtoU64(f[4]), f[5])
 	case "pool own":
 		return execOwn(f[2])
 	case "pool overlap":
@@ -820,6 +822,40 @@ func execDirty() vlib.Res {
 	return vlib.Res{Impl: impl, Oracle: or, Tags: "nt,dirty"}
 }
 
+// `pool reuse <seedA> <profileA> <seedB> <profileB>`: pack A (whatever becomes of it), then B
+// through the state A left in the pool: B is the library's bytes and the pool is clean after each.
+func execReuse(seedA uint64, profA string, seedB uint64, profB string) vlib.Res {
+	wire.VerifPoolDrain(8)
+	a := runTryPack(build(seedA, profA).m)
+	afterA := wire.VerifInspectPool(2)
+	want := libPack(build(seedB, profB).m)
+	b := runTryPack(build(seedB, profB).m)
+	afterB := wire.VerifInspectPool(2)
+	or := "ok"
+	switch {
+	case a.panicked != "" || b.panicked != "":
+		or = "FAIL sig=pool/reuse/trypack-panicked"
+	case afterA != "clean":
+		or = "FAIL sig=pool/release-left/" + inspectSig(afterA) + " " + afterA + " after a " + profA + " message"
+	case b.handled && (want.kind != "ok" || !bytes.Equal(b.body[:b.length], want.b)):
+		or = fmt.Sprintf("FAIL sig=pool/reuse/bytes-depend-on-the-previous-pack got=%d want=%s", b.length, want)
+	case afterB != "clean":
+		or = "FAIL sig=pool/release-left/" + inspectSig(afterB) + " " + afterB
+	}
+	tags := "nt,reuse"
+	if a.handled && b.handled {
+		tags += ",reuse-both-handled"
+	}
+	return vlib.Res{Impl: fmt.Sprintf("a=%s b=%s", vlib.B(a.handled), vlib.B(b.handled)), Oracle: or, Tags: tags}
+}
+
+func inspectSig(v string) string {
+	if strings.HasPrefix(v, "dictionary-holds-") {
+		return "dictionary-not-empty"
+	}
+	return v
+}
+
 func execInspect() vlib.Res {
 	v := wire.VerifInspectPool(3)
 	or := "ok"
@@ -911,7 +947,7 @@ func flagsStr(v int) string {
 	return sb.String()
 }
 
-var profiles = []string{"plain", "plain", "types", "types", "optmix", "bad", "rcode", "names", "size", "size", "qcount", "zero", "hdr", "svcbopt", "bigopt", "cdn", "cdn"}
+var profiles = []string{"plain", "plain", "types", "types", "optmix", "bad", "rcode", "names", "size", "size", "qcount", "zero", "hdr", "svcbopt", "bigopt", "cdn", "cdn", "manynames"}
 
 func gen(r *vlib.R, n int, tier string, emit func(string)) {
 	count := 0
@@ -988,6 +1024,11 @@ func gen(r *vlib.R, n int, tier string, emit func(string)) {
 	for i := 0; i < 100; i++ {
 		e(fmt.Sprintf("opt ttl %08x %d", uint32(r.U64()), r.Intn(4096)))
 	}
+	// what one pack leaves behind for the next one through the same pooled state
+	for i := 0; i < 60; i++ {
+		e(fmt.Sprintf("pool reuse %d %s %d %s", r.U64()%1000000007, vlib.Pick(r, []string{"manynames", "manynames", "manynames", "names", "types", "cdn", "bad", "rcode"}),
+			r.U64()%1000000007, vlib.Pick(r, []string{"plain", "cdn", "names", "manynames", "types"})))
+	}
 	// ownership of the pooled state across every way a pack can end
 	genOwn(r, tier, e)
 	// messages
@@ -1015,7 +1056,8 @@ func gen(r *vlib.R, n int, tier string, emit func(string)) {
 				dp = "f"
 			}
 			b := build(seed, p)
-			e(fmt.Sprintf("msg serve %s %s lib=%s ulen=%d", vlib.Pick(r, []string{"ub", "ub", "ud", "ts", "tl"}), dp, libPack(build(seed, p).m), b.ulen()))
+			e(fmt.Sprintf("msg serve %s %s %s lib=%s ulen=%d", vlib.Pick(r, []string{"ub", "ub", "ub", "ud", "ts", "tl"}), dp,
+				vlib.Pick(r, []string{"-", "-", "abort", "abort", "abort2", "commit"}), libPack(build(seed, p).m), b.ulen()))
 		}
 		if r.Chance(1, 5) {
 			e("msg fingerprint")
@@ -1078,6 +1120,7 @@ func facts() map[string]any {
 	lf := libFacts()
 	return map[string]any{
 		"write_while_borrowed":           writeWhileBorrowed(),
+		"release_clean_after_names":      releaseFacts(),
 		"lib_mono_violations":            lf[0],
 		"lib_hroom_violations":           lf[1],
 		"lib_sample_records":             lf[2],
